@@ -705,6 +705,14 @@ def run(pid, tier, seed, extra=None):
         undecided_funcs = {o.oid.split("/")[0] for o in rep.undecided}
         for con in cons:
             try:
+                try:
+                    repo.func(con.qual)
+                except KeyError:
+                    # the function under contract is not in this tree (renamed / removed helper): the contract has nothing to say;
+                    # already reported as UNDECIDED (function-not-found); the property-level bounded part still runs on the
+                    # public entry points
+                    rep.assumptions.append(f"{con.qual}: not present in this tree, its contract was not applied")
+                    continue
                 if (getattr(con, "domain", "graph") == "graph+expr" or not getattr(con, "finite_ok", True)) and not hasattr(con, "sample_args"):
                     continue      # records mixing graphs and expressions: the property-level bounded part covers these functions
                 if getattr(con, "domain", "graph") in ("expr", "graph+expr"):
